@@ -1,12 +1,15 @@
-import sys, random
-sys.path.insert(0, '/repo')
+"""Resolver-core correspondence (C10): random scope chains built with the library's own constructors (Scope, Binding,
+Inherit, Identifier); the real _resolve_identifier is compared inside Coq with R.ResolveCore.resolve_top: which binding
+(by identity), which value, which ResolutionError class.   usage: res_corr.py SEED N OUTDIR PREFIX"""
+import sys, random, os, json, collections
+from common import write_shards
 from nix_manipulator.expressions.binding import Binding
 from nix_manipulator.expressions.identifier import Identifier, _resolve_identifier
 from nix_manipulator.expressions.inherit import Inherit
 from nix_manipulator.expressions.scope import Scope
 from nix_manipulator.expressions.expression import coerce_expression
 from nix_manipulator.exceptions import ResolutionError
-R = random.Random(int(sys.argv[1])); N = int(sys.argv[2]); out = sys.argv[3]
+R = random.Random(int(sys.argv[1])); N = int(sys.argv[2]); outdir, prefix = sys.argv[3], sys.argv[4]
 NAMES = ['a', 'b', 'c', '"a"', '"b"', 'a', 'b', 'c']
 def q(t): return '(s "%s")' % t.replace('"', '""')
 cases = []
@@ -38,11 +41,13 @@ for _ in range(N):
         exp = 'RErr ' + ('CyclicRef' if m.startswith('Cyclic reference') else 'CyclicInh' if m.startswith('Cyclic inherit') else 'Unbound' if m.startswith('Unbound') else 'OutOfFuel')
     # model takes the chain innermost first
     cases.append('(%s, [%s], %s)' % (q(name), '; '.join(reversed(coq_scopes)), exp))
-with open(out, 'w') as f:
-    f.write('From Coq Require Import List Ascii String Arith Bool. Import ListNotations.\nFrom R Require Import ResolveCore.\nOpen Scope string_scope.\n')
-    f.write('Definition s (x : string) : str := list_ascii_of_string x.\n')
-    f.write('Definition same (a b : rres) : bool := match a, b with Found t i, Found t2 i2 => Nat.eqb t t2 && Nat.eqb i i2 | RErr Unbound, RErr Unbound | RErr CyclicRef, RErr CyclicRef | RErr CyclicInh, RErr CyclicInh => true | _, _ => false end.\n')
-    f.write('Definition cases : list (str * list (list entry) * rres) := [\n' + ';\n'.join(cases) + '\n].\n')
-    f.write('Eval vm_compute in (List.length cases, List.length (filter (fun c => negb (same (resolve_top (fst (fst c)) (snd (fst c))) (snd c))) cases)).\n')
-import collections
-print(collections.Counter(c.rsplit(', ', 1)[1].split()[0] + (' ' + c.rsplit(', ', 1)[1].split()[1] if c.rsplit(', ',1)[1].startswith('RErr') else '') for c in cases))
+HDR = ('From Coq Require Import List Ascii String Arith Bool. Import ListNotations.\nFrom R Require Import ResolveCore.\nOpen Scope string_scope.\n'
+       'Definition s (x : string) : str := list_ascii_of_string x.\n'
+       'Definition same (a b : rres) : bool := match a, b with Found t i, Found t2 i2 => Nat.eqb t t2 && Nat.eqb i i2 | RErr Unbound, RErr Unbound | RErr CyclicRef, RErr CyclicRef | RErr CyclicInh, RErr CyclicInh => true | _, _ => false end.\n')
+OK = 'Definition ok (c : str * list (list entry) * rres) : bool := same (resolve_top (fst (fst c)) (snd (fst c))) (snd c).\n'
+write_shards(outdir, prefix, HDR, 'str * list (list entry) * rres', OK, cases, 8)
+dist = collections.Counter(c.rsplit(', ', 1)[1].split()[0] + (' ' + c.rsplit(', ', 1)[1].split()[1] if c.rsplit(', ', 1)[1].startswith('RErr') else '') for c in cases)
+json.dump({'stats': {'outcomes': dict(dist)}, 'keys': sorted(dist), 'distinct_count': len(set(cases)),
+           'rule': 'chains of 1-4 scopes with 1-4 entries each (bindings with bare or quoted names whose value is a reference or a literal, inherit clauses), name looked up from the innermost scope',
+           'samples': [cases[0][:300]]}, open(os.path.join(outdir, prefix + '_summary.json'), 'w'))
+print(len(cases))
